@@ -24,6 +24,18 @@ type frScenario struct {
 	// start2 / write2 / stop2 calls go to a second recorder on the same directory (the test-recording
 	// recorder next to the motion recorder); such a scenario has no single-recorder namespace trace
 	Two bool `json:"two_recorders,omitempty"`
+	// the configured output directory is a symbolic link to the real one (e.g. /var/spool/cptv -> a mounted card)
+	Symlink bool `json:"output_dir_is_symlink,omitempty"`
+}
+
+// creates the scenario's output directory at path p (directly, or as a link to p-real)
+func frMkOut(sc frScenario, p string) {
+	if sc.Symlink {
+		os.MkdirAll(p+"-real", 0755)
+		os.Symlink(p+"-real", p)
+		return
+	}
+	os.MkdirAll(p, 0755)
 }
 type frCall struct {
 	K string `json:"k"` // start | write | stop | abort | start2 | write2 | stop2
@@ -304,19 +316,21 @@ func frScenarios(rng *rand.Rand, tier string) []frScenario {
 	}
 	st, sp, ab := []frCall{{K: "start"}}, []frCall{{K: "stop"}}, []frCall{{K: "abort"}}
 	scs := []frScenario{
-		{false, join(st, w(11, 12, 13), sp, st, w(21, 22), sp, st, w(31)), false},
-		{true, join(st, w(11, 12), sp, st, w(21), sp, st, w(31, 32)), false},
-		{false, join(st, w(11, 12), ab, st, w(21), sp), false},
+		{false, join(st, w(11, 12, 13), sp, st, w(21, 22), sp, st, w(31)), false, false},
+		{true, join(st, w(11, 12), sp, st, w(21), sp, st, w(31, 32)), false, false},
+		{false, join(st, w(11, 12), ab, st, w(21), sp), false, false},
 		// a test recording made while a motion recording is open: at any later kill an unfinished file is OLDER than a finished one
-		{false, join(st, w(11), []frCall{{K: "start2"}, {K: "write2", V: 51}, {K: "write2", V: 52}, {K: "stop2"}}, w(12, 13)), true},
+		{false, join(st, w(11), []frCall{{K: "start2"}, {K: "write2", V: 51}, {K: "write2", V: 52}, {K: "stop2"}}, w(12, 13)), true, false},
+		// the output directory is a symbolic link; constant recorder, one finished and one open recording
+		{true, join(st, w(11), sp, st, w(21, 22)), false, true},
 	}
 	if tier == "thorough" {
 		var many []int
 		for i := 0; i < 400; i++ { // enough frames for bufio flushes of the scratch file
 			many = append(many, 100+i)
 		}
-		scs = append(scs, frScenario{false, join(st, w(many...), sp, st, w(5), ab, st, w(6, 7), sp), false},
-			frScenario{true, join(st, w(many...), sp, st, w(8)), false})
+		scs = append(scs, frScenario{false, join(st, w(many...), sp, st, w(5), ab, st, w(6, 7), sp), false, false},
+			frScenario{true, join(st, w(many...), sp, st, w(8)), false, false})
 	}
 	return scs
 }
@@ -338,7 +352,7 @@ func init() {
 		for si, sc := range scs {
 			// 1. uninterrupted run: namespace trace + concurrent observer
 			out := filepath.Join(base, fmt.Sprintf("s%d-full", si))
-			os.MkdirAll(out, 0755)
+			frMkOut(sc, out)
 			logf := filepath.Join(base, fmt.Sprintf("s%d.strace", si))
 			var observations [][]frEntry
 			frRunScenario(sc, out, "", 0, logf, func() { observations = append(observations, listTree(out)) })
@@ -358,7 +372,7 @@ func init() {
 			{
 				cnt := filepath.Join(base, "cnt.strace")
 				o2 := filepath.Join(base, fmt.Sprintf("s%d-count", si))
-				os.MkdirAll(o2, 0755)
+				frMkOut(sc, o2)
 				frRunScenario(sc, o2, "", -1, cnt, nil)
 				b, _ := ioutil.ReadFile(cnt)
 				reName := regexp.MustCompile(`^\d+\s+([a-z0-9_]+)\(`)
@@ -394,7 +408,7 @@ func init() {
 					continue
 				}
 				out := filepath.Join(base, fmt.Sprintf("s%d-%s%d", si, killName, k))
-				os.MkdirAll(out, 0755)
+				frMkOut(sc, out)
 				done := frRunScenario(sc, out, killName, k, "", nil)
 				pre := listTree(out)
 				frRecover(out)
